@@ -1,7 +1,11 @@
 (* Model of the CLI's action logic for filesystem changes (cli/src/config.rs, the on_action_async handler
    and its in-job query closure; cli/src/args/events.rs::normalise; cli/src/lib.rs start-up event) at the
-   level of runs of the single supervised command.  That runs never overlap at the process level is C04. *)
-From Coq Require Import List NArith Bool Lia.
+   level of runs of the single supervised command.  That runs never overlap at the process level is C04.
+
+   The Job API calls made by each arm of the on-busy decision are TRANSLATED from config.rs
+   (Gen/CliOnBusy_gen.v) and interpreted here with their documented meaning (C09): the decision is taken on the
+   state the in-job query saw, the calls are processed later, and the command may have ended in between. *)
+From Coq Require Import List NArith Bool String Lia.
 Import ListNotations.
 Open Scope N_scope.
 
@@ -22,41 +26,89 @@ Definition busy_signal (o : opts) : N :=
   match o_signal o with Some s => s | None => match o_stop_signal o with Some s => s | None => 15 end end.
 Definition stop_sig (o : opts) : N := match o_stop_signal o with Some s => s | None => 15 end.
 
-Inductive act : Set := AChange | AStart | ASignal (s : N) | AStopStart (s : N) | AExit.
-Inductive ev : Set := Change | Exit.
+(* the Job API calls the handler can make, by their effect on runs *)
+Inductive call : Set :=
+  | KSignal          (* job.signal: delivered if running, else nothing *)
+  | KRestart         (* restart / restart_with_signal = [Stop|GracefulStop; Start]: stops if running, then always starts *)
+  | KTryRestart      (* try_restart(_with_signal): restarts only if still running *)
+  | KStart           (* start: starts unless running *)
+  | KWaitEnd         (* to_wait().await in a helper task: the following calls happen when the current run has ended *)
+  | KNoop            (* run / clone / hooks: no effect on runs *)
+  | KUnknown.
+Definition call_of (s : string) : call :=
+  if String.eqb s "signal" then KSignal
+  else if String.eqb s "restart_with_signal" || String.eqb s "restart" then KRestart
+  else if String.eqb s "try_restart_with_signal" || String.eqb s "try_restart" then KTryRestart
+  else if String.eqb s "start" then KStart
+  else if String.eqb s "to_wait" then KWaitEnd
+  else if String.eqb s "run" || String.eqb s "clone" || String.eqb s "run_async" || String.eqb s "set_spawn_hook" then KNoop
+  else KUnknown.
+
+Record table : Set := mkTab { t_signal : list call; t_restart : list call; t_queue : list call; t_donothing : list call; t_idle : list call }.
+
+Inductive act : Set := AChange | AStart | ASignal (s : N) | AStopStart (s : N) | AExit | ABad.
+(* Change r: a batch of changes is handled; r = the command ends between the in-job state query and the
+   processing of the calls it queued *)
+Inductive ev : Set := Change (raced : bool) | Exit.
 
 Record st : Set := mkSt {
   running : bool;
-  queued : bool;          (* the `queued` flag / the queue helper is waiting for the run to end *)
-  pending : bool;         (* ghost: a change was handled since the last start of a run *)
-  log : list act }.       (* newest first *)
+  deferred : option (list call);   (* the queue helper waits for the run to end (the `queued` flag is set) *)
+  pending : bool;                  (* ghost: a change was handled since the last start of a run *)
+  log : list act }.                (* newest first *)
 
-Definition st0 : st := mkSt false false false [].
+Definition st0 : st := mkSt false None false [].
+Definition queued (s : st) : bool := match deferred s with Some _ => true | None => false end.
 
-Definition start (s : st) : st := mkSt true false false (AStart :: log s).
+Definition start (s : st) : st := mkSt true (deferred s) false (AStart :: log s).
 
-Definition step (o : opts) (s : st) (e : ev) : st :=
-  match e with
-  | Change =>
-      let s1 := mkSt (running s) (queued s) true (AChange :: log s) in
-      if running s then
-        match eff_mode o with
-        | MDoNothing => s1
-        | MSignal => mkSt true (queued s) true (ASignal (busy_signal o) :: log s1)
-        | MRestart => mkSt true false false (AStopStart (stop_sig o) :: log s1)
-        | MQueue => mkSt true true true (log s1)
+Section Table.
+  Variable T : table.
+  Variable o : opts.
+
+  Fixpoint apply_calls (cs : list call) (s : st) : st :=
+    match cs with
+    | [] => s
+    | c :: r =>
+        match c with
+        | KNoop => apply_calls r s
+        | KSignal => apply_calls r (if running s then mkSt true (deferred s) (pending s) (ASignal (busy_signal o) :: log s) else s)
+        | KRestart => apply_calls r (if running s then mkSt true (deferred s) false (AStopStart (stop_sig o) :: log s) else start s)
+        | KTryRestart => apply_calls r (if running s then mkSt true (deferred s) false (AStopStart (stop_sig o) :: log s) else s)
+        | KStart => apply_calls r (if running s then s else start s)
+        | KWaitEnd => if running s then mkSt true (Some r) (pending s) (log s) else apply_calls r s
+        | KUnknown => mkSt (running s) (deferred s) (pending s) (ABad :: log s)
         end
-      else start s1
-  | Exit =>
-      if running s then
-        let s1 := mkSt false (queued s) (pending s) (AExit :: log s) in
-        if queued s then start s1 else s1
-      else s
-  end.
+    end.
 
-(* the empty urgent event sent at start-up unless --postpone is handled like a change while idle *)
-Definition boot (o : opts) : st := if o_postpone o then st0 else step o st0 Change.
-Definition run (o : opts) (es : list ev) : st := fold_left (step o) es (boot o).
+  Definition do_exit (s : st) : st :=
+    if running s then
+      let s1 := mkSt false None (pending s) (AExit :: log s) in
+      match deferred s with Some cs => apply_calls cs s1 | None => s1 end
+    else s.
+
+  Definition arm (m : mode) : list call :=
+    match m with MDoNothing => t_donothing T | MQueue => t_queue T | MRestart => t_restart T | MSignal => t_signal T end.
+
+  Definition step (s : st) (e : ev) : st :=
+    match e with
+    | Change r =>
+        let s1 := mkSt (running s) (deferred s) true (AChange :: log s) in
+        (* the decision, on the state the query sees *)
+        let cs := if running s then
+                    match eff_mode o with
+                    | MQueue => if queued s then [] else arm MQueue        (* queued.fetch_or(true): already queued *)
+                    | m => arm m
+                    end
+                  else t_idle T in
+        apply_calls cs (if r then do_exit s1 else s1)
+    | Exit => do_exit s
+    end.
+
+  (* the empty urgent event sent at start-up unless --postpone is handled like a change while idle *)
+  Definition boot : st := if o_postpone o then st0 else step st0 (Change false).
+  Definition run (es : list ev) : st := fold_left step es boot.
+End Table.
 
 Definition is_start (a : act) : bool := match a with AStart | AStopStart _ => true | _ => false end.
 Definition starts (s : st) : nat := List.length (filter is_start (log s)).
